@@ -101,6 +101,7 @@ type UnitGen struct {
 	inputs   []NamedTerm
 	obs      []*Obligation
 	top0     Term
+	spawned0 Term // G:spawned at entry
 	notes    []string
 	curPos   string
 
